@@ -439,8 +439,12 @@ func makeBytesArshaler(t reflect.Type, fncs *arshaler) *arshaler {
 				// specifies that non-alphabet characters must be rejected.
 				// Unfortunately, the "base32" and "base64" packages allow
 				// '\r' and '\n' characters by default.
-				i := bytes.IndexAny(val, "\r\n")
-				err := fmt.Errorf("illegal character %s at offset %d", jsonwire.QuoteRune(val[i:]), i)
+				// The decoders also tolerate other extraneous input
+				// (e.g., "base32" ignores data after the padding).
+				err := fmt.Errorf("illegal data at offset %d", encodedLen(len(b)))
+				if i := bytes.IndexAny(val, "\r\n"); i >= 0 {
+					err = fmt.Errorf("illegal character %s at offset %d", jsonwire.QuoteRune(val[i:]), i)
+				}
 				return newUnmarshalErrorAfter(dec, t, err)
 			}
 
